@@ -72,6 +72,7 @@ func runC04(c *Ctx, tier string) {
 	writersNoRetain(c, "C04-W2")
 	c.Rule("C04-F1", "the buffer filter is only an over-approximation: CompileBufferFilter's and/or composition (with absent sub-filters), the keyword-search combination and BufferFilter.Eval's operator table are checked exhaustively over the truth table of sound sub-filters")
 	runC04K1(c)
+	runIDCaches(c, "C04-O8", "C04-K2")
 	runC04P1(c)
 	runC04F1(c)
 	c.borrow(func(t *Ctx) { runC05Rest(t) }, map[string]string{"C05-W1": "C04-W1"})
